@@ -209,10 +209,21 @@ static void run_t2(void) {
     g_t2_done = 1;
     real(g_c, VF_OP2, vfin.idx2, vfin.val2, &g_r2);
 }
+/* lock-discipline monitor (see schedmap.c): the structural pointers are hidden while T1 is outside its critical sections */
+#if VF_CONT == 1
+static void *sv_data;
+static void hide(cont_t *c) { sv_data = c->data; c->data = NULL; }
+static void show(cont_t *c) { c->data = sv_data; }
+#else
+static qlist_obj_t *sv_first, *sv_last;
+static void hide(cont_t *c) { sv_first = c->first; sv_last = c->last; c->first = NULL; c->last = NULL; }
+static void show(cont_t *c) { c->first = sv_first; c->last = sv_last; }
+#endif
 static void hook(int what) {
-    (void)what;
     g_points++;
+    if (what == VF_SCHED_ACQUIRE) show(g_c);
     if (!g_t2_done && g_points == vfin.sched) run_t2();
+    if (what == VF_SCHED_RELEASE) hide(g_c);
 }
 
 void vf_harness(void) {
@@ -262,7 +273,9 @@ void vf_harness(void) {
     /* --- concurrent execution: T1 with T2 injected at scheduling point vfin.sched --- */
     if (vfin.sched == 0) run_t2();
     vf_sched_hook = hook;
+    hide(c);
     real(c, VF_OP1, vfin.idx1, vfin.val1, &r1);
+    show(c);
     vf_sched_hook = NULL;
     if (!g_t2_done) { VF_COVER("t2-after"); run_t2(); } else if (vfin.sched != 0) VF_COVER("t2-inside");
     VF_ASSERT(vf_lock_depth == 0, "C14.sched.lock: both calls return with the lock released");
@@ -274,7 +287,7 @@ void vf_harness(void) {
     ideal(&b, VF_OP2, vfin.idx2, vfin.val2, &b2); ideal(&b, VF_OP1, vfin.idx1, vfin.val1, &b1); /* T2 ; T1 */
     bool lin_a = res_eq(&r1, &a1) && res_eq(&g_r2, &a2) && contents_eq(c, &a);
     bool lin_b = res_eq(&r1, &b1) && res_eq(&g_r2, &b2) && contents_eq(c, &b);
-    VF_ASSERT(lin_a || lin_b, "C13.linearizable: results and final contents equal those of one of the two sequential orders (no update lost, duplicated or half-applied)");
+    VF_ASSERT(lin_a || lin_b, "C13.linearizable: results and final contents equal those of one of the two sequential orders (no update lost, duplicated or half-applied; no access to the container structure outside its lock)");
     if (vfin.sched == 0) VF_ASSERT(lin_b, "C13.seq.t2t1: the harness model agrees with the code for the sequential order T2;T1");
     c->free(c);
     VF_REACH("end");
